@@ -45,7 +45,7 @@ type Row struct {
 
 // Case is one evaluated input (also the replay format).
 type Case struct {
-	Path    string            `json:"path"` // value | invoice-issue | invoice-value | invoice-override | raw
+	Path    string            `json:"path"` // value | invoice-issue | invoice-value | invoice-override | invoice-stale | raw
 	Country string            `json:"regime,omitempty"`
 	Cat     string            `json:"category,omitempty"`
 	Rate    string            `json:"rate,omitempty"`
@@ -252,8 +252,13 @@ type invOut struct {
 // runInvoice builds a minimal invoice of regime `host` with one line taxed with
 // (cat, rate, ext), optionally with a per-combo country override, calculates
 // it with the real code and reads back what the combo received.
-func runInvoice(host, override, cat, rate string, ext map[string]string, tags []string, issue [3]int, value *[3]int) invOut {
+func runInvoice(host, override, cat, rate string, ext map[string]string, tags []string, issue [3]int, value *[3]int, stale bool) invOut {
 	combo := map[string]any{"cat": cat, "rate": rate}
+	if stale {
+		// figures left over from an earlier calculation (or typed in): the table decides, not the input
+		combo["percent"] = "99.0%"
+		combo["surcharge"] = "7.7%"
+	}
 	if len(ext) > 0 {
 		combo["ext"] = ext
 	}
@@ -376,7 +381,7 @@ func enumerate(c *core.Ctx) []Case {
 					for _, ev := range extVars {
 						c.Count("filters", 1)
 						for _, d := range ds {
-							for _, path := range []string{"value", "invoice-issue", "invoice-value", "invoice-override"} {
+							for _, path := range []string{"value", "invoice-issue", "invoice-value", "invoice-override", "invoice-stale"} {
 								out = append(out, Case{Path: path, Country: string(r.Country), Cat: string(cat.Code), Rate: string(rate.Key), Date: d, Tags: tv, Ext: ev})
 							}
 						}
@@ -574,7 +579,7 @@ func prepareInvoice(c *core.Ctx, cs Case) *evaluated {
 			return nil
 		}
 	}
-	o := runInvoice(host, override, cs.Cat, cs.Rate, cs.Ext, cs.Tags, issue, value)
+	o := runInvoice(host, override, cs.Cat, cs.Rate, cs.Ext, cs.Tags, issue, value, cs.Path == "invoice-stale")
 	c.Count("path:"+cs.Path, 1)
 	e := &evaluated{Case: cs, Go: o}
 	if !o.Found || strings.HasPrefix(o.Err, "other:") || strings.HasPrefix(o.Err, "panic:") {
@@ -598,10 +603,15 @@ func prepareInvoice(c *core.Ctx, cs Case) *evaluated {
 	if override != "" {
 		ovr = 1
 	}
+	// the percentage and surcharge the input combo carries (stale path: 99.0%, 7.7%)
+	inPct, inSur := "-", "-"
+	if cs.Path == "invoice-stale" {
+		inPct, inSur = "990:3", "77:3"
+	}
 	e.Reqs = []string{
 		valReq("reg", o.Country, o.Cat, o.Rate, o.TaxDate, o.Tags, o.Ext),
 		valReq("json", o.Country, o.Cat, o.Rate, o.TaxDate, o.Tags, o.Ext),
-		fmt.Sprintf("combo reg %s %s %s %d - - %s %s %s", core.Hex(cs.Country), core.Hex(cs.Cat), core.Hex(cs.Rate), ovr, dateReq(cs.Date), hexList(o.Tags), hexExt(comboInputExt(cs, o))),
+		fmt.Sprintf("combo reg %s %s %s %d %s %s %s %s %s", core.Hex(cs.Country), core.Hex(cs.Cat), core.Hex(cs.Rate), ovr, inPct, inSur, dateReq(cs.Date), hexList(o.Tags), hexExt(comboInputExt(cs, o))),
 	}
 	e.judge = func(resp []string) {
 		if o.TaxDate != cs.Date {
@@ -668,7 +678,7 @@ func prepareInvoice(c *core.Ctx, cs Case) *evaluated {
 			} else {
 				have = fmt.Sprintf("ok %s %s %s", o.Pct, o.Sur, hexExt(o.Ext))
 			}
-			if reg.N == 0 && !reg.Exempt {
+			if reg.N == 0 && !reg.Exempt && cs.Path != "invoice-stale" {
 				// untouched: the model echoes the input percentage (none)
 				have = fmt.Sprintf("ok %s %s %s", "-", "-", hexExt(o.Ext))
 				if o.Pct != "-" {
